@@ -63,3 +63,31 @@ Proof.
   - rewrite is_prefix_app_nonempty by apply itoa_nonempty. apply itoa_nonneg_head. lia.
   - rewrite is_prefix_app_nonempty by exact Hne. exact Hm.
 Qed.
+
+(* precision arguments (after repair C11-precision-unbounded): a constant precision beyond
+   maxPrecision gives <VALUE> before anything is formatted *)
+Theorem precision_law_proof : forall a p pv orc, static_int p = Some pv -> maxPrecision < pv ->
+  f_round [a; p] orc = Ok ErrorValue /\
+  (forall un step delim units, f_unitize un step delim units [a; p] orc = Ok ErrorValue) /\
+  f_percent [a; p] orc = Ok ErrorValue /\
+  (forall x, f_percent [a; p; x] orc = Ok ErrorValue) /\
+  (forall x y, f_percent [a; p; x; y] orc = Ok ErrorValue).
+Proof.
+  intros a p pv orc Hp Hgt.
+  assert (E : precision_ok pv = false) by (unfold precision_ok; apply Z.leb_gt; exact Hgt).
+  unfold f_round, f_unitize, f_percent. rewrite Hp, E. repeat split; reflexivity.
+Qed.
+
+(* comparison of finite values is invariant under a common rescaling by 2^k: it is the order of the
+   rationals m * 2^e, not of a particular representation *)
+Theorem fcompare_scale_proof : forall m1 e1 m2 e2 e0, e0 <= Z.min e1 e2 ->
+  fcompare (FFin m1 e1) (FFin m2 e2) = Some (m1 * 2 ^ (e1 - e0) ?= m2 * 2 ^ (e2 - e0)).
+Proof.
+  intros m1 e1 m2 e2 e0 H. cbn [fcompare]. f_equal.
+  set (e := Z.min e1 e2) in *. set (k := e - e0).
+  assert (Hk : 0 <= k) by (unfold k; lia).
+  replace (e1 - e0) with ((e1 - e) + k) by (unfold k; lia).
+  replace (e2 - e0) with ((e2 - e) + k) by (unfold k; lia).
+  rewrite !Z.pow_add_r by (unfold e; lia). rewrite !Z.mul_assoc.
+  apply Zmult_compare_compat_r. apply Z.lt_gt. apply Z.pow_pos_nonneg; lia.
+Qed.
